@@ -432,6 +432,12 @@ func runWirePart(c *Ctx, work string, sp *WireSpec) (Coverage, int, error) {
 	executed := 0
 	predictedSkipped := 0
 	budgetB, budgetS := map[string]int{}, map[string]int{}
+	siblings := map[string][]int{}
+	for i, cs := range run.cases {
+		if len(cs.Enc) <= 300 {
+			siblings[cs.Pid] = append(siblings[cs.Pid], i)
+		}
+	}
 	for i, cs := range run.cases {
 		b := ws.Builts[cs.Pid]
 		if !(b.Accepted && b.Compiles) {
@@ -444,6 +450,16 @@ func runWirePart(c *Ctx, work string, sp *WireSpec) (Coverage, int, error) {
 		}
 		if cs.Inputs != nil {
 			j["inputs"] = cs.Inputs
+		}
+		if sp.Op == "codec" && sp.JudgeProp == "C09" {
+			// another value of the same package's schema (the next case of the package, cyclically)
+			if sib := siblings[cs.Pid]; len(sib) > 1 {
+				for k, ci := range sib {
+					if ci == i {
+						j["alt"] = run.cases[sib[(k+1)%len(sib)]].Enc
+					}
+				}
+			}
 		}
 		if sp.Op == "stream" {
 			j["seq"] = cs.Seq
